@@ -32,6 +32,8 @@ pub struct SysCfg {
     pub array_eq: bool,
     /// constant arrays only as init values
     pub array_const_only_in_init: bool,
+    /// a third of the systems have no states at all
+    pub allow_stateless: bool,
 }
 
 impl Default for SysCfg {
@@ -54,6 +56,7 @@ impl Default for SysCfg {
             nextless_states: false,
             array_eq: true,
             array_const_only_in_init: false,
+            allow_stateless: false,
         }
     }
 }
@@ -74,7 +77,7 @@ fn bits_of(ctx: &Context, s: ExprRef) -> u32 {
 pub fn gen_system(rng: &mut Rng, ctx: &mut Context, cfg: &SysCfg, prefix: &str) -> GenSys {
     let mut sys = TransitionSystem::new(format!("{prefix}sys"));
     // ---- symbols
-    let nstates = rng.range(1, cfg.max_states);
+    let nstates = if cfg.allow_stateless && rng.chance(1, 3) { 0 } else { rng.range(1, cfg.max_states) };
     let ninputs = rng.below(cfg.max_inputs + 1);
     let mut state_syms: Vec<ExprRef> = vec![];
     let mut bits = 0u32;
@@ -233,7 +236,7 @@ pub fn gen_system(rng: &mut Rng, ctx: &mut Context, cfg: &SysCfg, prefix: &str) 
             0 => ctx.get_true(),
             1 => ctx.get_false(),
             2 if k > 0 => sys.bad_states[0], // duplicate
-            3 | 4 => {
+            3 | 4 if !state_syms.is_empty() => {
                 // equality of a state with a literal: reachable only sometimes / late
                 let s = *g.rng.pick(&state_syms);
                 match super::expr::s_type(ctx, s) {
@@ -253,7 +256,7 @@ pub fn gen_system(rng: &mut Rng, ctx: &mut Context, cfg: &SysCfg, prefix: &str) 
     for k in 0..nout {
         let d = g.rng.range(0, cfg.max_depth as u64) as u32;
         let w = g.rng.range(1, cfg.max_bv_width as u64) as u32;
-        let e = if g.rng.chance(1, 5) { *g.rng.pick(&state_syms) } else { g.bv(ctx, w, d) };
+        let e = if g.rng.chance(1, 5) && !state_syms.is_empty() { *g.rng.pick(&state_syms) } else { g.bv(ctx, w, d) };
         sys.add_output(ctx, format!("{prefix}out{k}").into(), e);
     }
     // names for a few inner nodes
